@@ -35,7 +35,8 @@ FLOORS = {"optimum_comparisons_nontrivial": 500, "early_stops": 50, "no_start_ca
           "paths_rescored_by_reference": 1000, "threshold_hit_exactly": 20, "reused_matcher_cases": 500}
 ASSUMPTIONS = ["the distance/projection of an observation on a state is taken from the map's own primitive so that threshold decisions are "
                "bit-identical (those primitives are judged by C05/C13); everything else (states, successors, scores, stop rule, DP) is independent",
-               "cases in which a normalised probability falls within 1e-9 relative of min_prob_norm (not exactly on it) are skipped as borderline",
+               "cases in which a normalised probability falls within 1e-9 relative of min_prob_norm (or exactly on it: the reference's own score formula "
+               "rounds differently from the implementation's) are skipped as borderline; exact equality is judged for distance thresholds only",
                "log-probabilities compared at 1e-9*max(1,|x|)"]
 
 
